@@ -420,6 +420,8 @@ func (c *Ctx) GuardedCalls(callee string, argIdx int, roots []*ssa.Function, inc
 					ob.Status, ob.Got = core.OK, "nil argument"
 				case lenGuarded(fn, b, arg):
 					ob.Status, ob.Got = core.OK, "dominated by a len() comparison with an exit on mismatch"
+				case c.guardedAtCallers(fn, arg, 0, func(f *ssa.Function) bool { return seen[core.Origin(f)] }):
+					ob.Status, ob.Got = core.OK, "the enclosing unexported wrapper passes its own parameter on; every call site of the wrapper passes nil or a length-checked slice"
 				default:
 					ob.Status, ob.Got = core.Violated, "peer-sized slice passed without a length check: mismatch panics in "+callee
 				}
@@ -679,4 +681,50 @@ func (c *Ctx) NetworkRoots() []*ssa.Function {
 		out = append(out, r)
 	}
 	return out
+}
+
+// guardedAtCallers: arg is a parameter of the unexported function fn, and at every call site of fn
+// in the module the corresponding argument is nil, length-guarded there, or again such a parameter.
+func (c *Ctx) guardedAtCallers(fn *ssa.Function, arg ssa.Value, depth int, inScope func(*ssa.Function) bool) bool {
+	p, ok := arg.(*ssa.Parameter)
+	if !ok || depth > 2 {
+		return false
+	}
+	if obj := fn.Object(); fn.Parent() == nil && obj != nil && obj.Exported() {
+		return false
+	}
+	idx := -1
+	for i, q := range fn.Params {
+		if q == p {
+			idx = i
+		}
+	}
+	node := c.P.CallGraph().Nodes[fn]
+	if idx < 0 || node == nil {
+		return false
+	}
+	n := 0
+	for _, e := range node.In {
+		if e.Site == nil || e.Caller == nil || e.Caller.Func == nil || !c.P.InModule(e.Caller.Func) {
+			continue
+		}
+		if !inScope(e.Caller.Func) {
+			continue // a caller that is not on a path from the untrusted-input roots
+		}
+		if e.Site.Common().StaticCallee() != fn {
+			return false // reached through a function value: call sites unknown
+		}
+		args := e.Site.Common().Args
+		if idx >= len(args) {
+			return false
+		}
+		n++
+		a := args[idx]
+		caller := e.Caller.Func
+		if isNilConst(a) || lenGuarded(caller, e.Site.Block(), a) || c.guardedAtCallers(caller, a, depth+1, inScope) {
+			continue
+		}
+		return false
+	}
+	return n > 0
 }
